@@ -19,9 +19,26 @@ pub struct Attempt {
 	/// entry point that uses the configuration: 0 = to_datum, 1 = to_single_object, 2 = a container Writer built on it
 	#[serde(default)]
 	pub via: u8,
+	/// at this serde call the caller's Serialize impl serializes SOMETHING ELSE (the first probe, through a fresh
+	/// configuration of a second instance of the schema; odd values: a presentation that fails half-way) before it
+	/// goes on: re-entrancy. Nothing the two serializations share may show in either output.
+	#[serde(default)]
+	pub reenter_at: Option<u32>,
+	/// (entry point 2) codec and level of the container Writer built on the configuration, and how many times the
+	/// value is written through it: successive Writers on one configuration differ in codec and level
+	#[serde(default)]
+	pub writer: Option<(crate::ref_container::Codec, u8)>,
+}
+
+thread_local! {
+	static REENTER_REPORT: std::cell::RefCell<Option<String>> = const { std::cell::RefCell::new(None) };
 }
 
 /// one attempt through the chosen entry point; returns (result, serde calls, poison fired, poison depth)
+thread_local! {
+	static WRITER_KNOBS: std::cell::Cell<Option<(crate::ref_container::Codec, u8)>> = const { std::cell::Cell::new(None) };
+}
+
 fn attempt_via(
 	via: u8,
 	cfg: &mut SerializerConfig<'_>,
@@ -42,11 +59,25 @@ fn attempt_via(
 		2 => {
 			use serde_avro_fast::object_container_file_encoding::WriterBuilder;
 			let ctx = PresCtx::new(env, pres, poison);
-			let built = WriterBuilder::new(cfg).sync_marker([7; 16]).build(sink);
+			let knobs = WRITER_KNOBS.with(|k| k.get());
+			let b = WriterBuilder::new(cfg).sync_marker([7; 16]);
+			let b = match knobs {
+				Some((codec, _)) => b.compression(crate::container::to_crate_compression(codec)),
+				None => b,
+			};
+			let built = b.build(sink);
 			let r = match built {
 				Err(e) => Err(e.to_string()),
 				Ok(mut w) => {
-					let r1 = w.serialize(Presented::new(val, ty, &ctx)).map_err(|e| e.to_string());
+					let mut r1 = w.serialize(Presented::new(val, ty, &ctx)).map_err(|e| e.to_string());
+					// (the same value again and again: data in which compression levels make a difference)
+					for _ in 1..knobs.map_or(1, |k| k.1.max(1)) {
+						if r1.is_err() {
+							break;
+						}
+						let ctx2 = PresCtx::new(env, pres, None);
+						r1 = w.serialize(Presented::new(val, ty, &ctx2)).map_err(|e| e.to_string());
+					}
 					// into_inner rather than drop: a failing flush inside Drop panics on purpose in debug builds
 					let r2 = w.into_inner().map(|_| ()).map_err(|e| e.to_string());
 					r1.and(r2)
@@ -123,7 +154,7 @@ impl Prop for C14 {
 		"A scenario is a schema biased to nested records (inside records / arrays / unions) and bytes presented as length-less sequences, a history of <= 8 serialization attempts on ONE SerializerConfig (each with its own presentation: field permutation at every nesting level, omitted nullable fields, struct vs map, seq with/without length) and two probes. \
 		 Enumerated fault space: for every attempt, a caller failure of each kind {Err, wrong type, missing field, duplicated field, sequence abandoned without end()} at EVERY serde-call index, and a hard sink error after EVERY accepted byte count (sink plan Fixed(1)); plus sampled histories with several failing attempts (capped per scenario, sampled above the cap). \
 		 After the failing attempt and after the last attempt both probes are serialized on the used configuration and must be byte-identical to a fresh configuration's output; successful attempts are compared with their fresh-configuration bytes; nothing may panic (debug assertions are on, so the crate's pool assertions are live). \
-		 An evaluation is one attempt or probe serialization. Distinct = distinct (fault kind, nesting depth of the failure, attempt outcome, out-of-order presentation?, probe allocation-count bucket = pool state). One scenario in forty is ONE long history instead of the enumeration: the attempts are cycled through 40-1600 times on one configuration, 5-100 % of them failing at a drawn point (caller failure of a drawn kind, or sink error after a drawn byte count), with probes after a quarter of the failures, every 64 attempts and at the end. Values are presented through the canonical serde calls or (per-node coin) the other calls the crate documents as equivalent (collect_str, char, other integer widths, integers for decimals, tuples, struct variants, Some(v) ...); a third of the schemas put decimals on a fixed wider than 16 bytes; one scenario in forty is deliberately large-scale (hundreds of reordered fields, long arrays, deep lists)."
+		 An evaluation is one attempt or probe serialization. Distinct = distinct (fault kind, nesting depth of the failure, attempt outcome, out-of-order presentation?, probe allocation-count bucket = pool state). One scenario in forty is ONE long history instead of the enumeration: the attempts are cycled through 40-1600 times on one configuration, 5-100 % of them failing at a drawn point (caller failure of a drawn kind, or sink error after a drawn byte count), with probes after a quarter of the failures, every 64 attempts and at the end. One attempt in five is RE-ENTRANT: at a drawn serde call the caller's Serialize impl serializes the first probe (or first a presentation of it that fails half-way) through a fresh configuration of another instance of the schema, then goes on; neither output may differ from a fresh configuration's. Values are presented through the canonical serde calls or (per-node coin) the other calls the crate documents as equivalent (collect_str, char, other integer widths, integers for decimals, tuples, struct variants, Some(v) ...); container Writers built on the configuration (entry point 2) differ in codec and level from attempt to attempt and write their value up to 40 times; a third of the schemas put decimals on a fixed wider than 16 bytes; one scenario in forty is deliberately large-scale (hundreds of reordered fields, long arrays, deep lists)."
 	}
 	fn assumptions(&self) -> Vec<String> {
 		vec![
@@ -183,15 +214,29 @@ impl Prop for C14 {
 				1 => 2,
 				_ => 0,
 			};
-			attempts.push(Attempt { val: v, pres, via });
+			let reenter_at = if rng.chance(1, 5) { Some(rng.below(24) as u32) } else { None };
+			let writer = if via == 2 && rng.chance(2, 3) {
+				let codec = match rng.below(4) {
+					0 => crate::ref_container::Codec::Null,
+					1 => crate::ref_container::Codec::Deflate(*rng.pick(&[1u8, 6, 9])),
+					2 => crate::ref_container::Codec::Snappy,
+					_ => crate::ref_container::Codec::Zstd(*rng.pick(&[1u8, 3, 9])),
+				};
+				Some((codec, *rng.pick(&[1u8, 1, 12, 40])))
+			} else {
+				None
+			};
+			attempts.push(Attempt { val: v, pres, via, reenter_at, writer });
 		}
 		let last = attempts.last().unwrap().val.clone();
 		let probes = vec![
-			Attempt { val: last.clone(), pres: PresCfg::plain(), via: 0 },
+			Attempt { val: last.clone(), pres: PresCfg::plain(), via: 0, reenter_at: None, writer: None },
 			Attempt {
 				val: val::gen_val(rng, &env, &schema, &vcfg),
 				pres: PresCfg { seed: rng.next_u64(), reorder: true, omit_nullable: false, record_as_map: false, len_none: allow_slow, bytes_as_seq: allow_slow, alt_calls: false },
 				via: 0,
+				reenter_at: None,
+				writer: None,
 			},
 		];
 		if scale.is_none() && rng.chance(1, 40) {
@@ -229,6 +274,7 @@ impl Prop for C14 {
 		for (i, a) in scn.attempts.iter().enumerate() {
 			let mut cfg = new_config(&schema, scn.allow_slow);
 			let clean_sink = SimSink::all();
+			WRITER_KNOBS.with(|k| k.set(a.writer));
 			let r = catch(|| attempt_via(a.via, &mut cfg, &env, &scn.schema, &a.val, a.pres, None, clean_sink.clone()));
 			out.evals += 1;
 			match r {
@@ -312,10 +358,39 @@ impl Prop for C14 {
 						SimSink::new(AcceptPlan::Fixed(1), false).with_faults(vec![SinkFault { at_call: *after_bytes, kind: SinkFaultKind::Hard(*kind) }]),
 					),
 				};
+				if let Some(at) = a.reenter_at {
+					// the nested serialization: the first probe (odd call indices: a presentation of it that fails half-way)
+					// through a fresh configuration of its own instance of the schema
+					let (ty2, pv, ppres, want) = (scn.schema.clone(), scn.probes[0].val.clone(), scn.probes[0].pres, probe_fresh[0].clone());
+					crate::val::REENTER.with(|r| {
+						*r.borrow_mut() = Some((
+							at as usize,
+							Box::new(move || {
+								let env2 = Env::build(&ty2);
+								let Ok(schema2) = world::parse_schema(&ty2) else { return };
+								let mut c2 = SerializerConfig::new(&schema2);
+								if at % 2 == 1 {
+									let _ = world::crate_encode_to(&mut c2, &env2, &ty2, &pv, ppres, Some(Poison { at_call: (at as usize / 2) % 7, kind: PoisonKind::Err }), Vec::new());
+								}
+								match world::crate_encode_to(&mut c2, &env2, &ty2, &pv, ppres, None, Vec::new()).0 {
+									Ok(b) if b == want => {}
+									other => REENTER_REPORT.with(|rep| *rep.borrow_mut() = Some(format!("nested serialization gave {:?}", other.map(|b| b.len()))))
+								}
+							}),
+						))
+					});
+					out.count("reentrant_serialization_armed", 1);
+				}
+				WRITER_KNOBS.with(|k| k.set(a.writer));
 				let r = catch(|| attempt_via(a.via, &mut cfg, &env, &scn.schema, &a.val, a.pres, poison, sink.clone()));
+				crate::val::REENTER.with(|r| *r.borrow_mut() = None);
 				out.evals += 1;
 				out.steps += sink.calls();
 				digest.u64(sink.digest());
+				if let Some(rep) = REENTER_REPORT.with(|rep| rep.borrow_mut().take()) {
+					out.fail("C14:reentrant-serialization-differs-from-fresh-config", format!("attempt {j}: {rep}"));
+					break 'hist;
+				}
 				let what = || if long.is_some() { format!("long history ({} faults before this point), attempt {j} of {total}", h.iter().filter(|f| f.attempt < j).count()) } else { format!("history {h:?}, attempt {j}") };
 				let (res, fired, depth) = match r {
 					Ok((res, _calls, fired, depth)) => (res, fired, depth),
